@@ -91,9 +91,10 @@ def _evaluate(req):
     first = True
     pool = _LazyPool(sc.get("pool", []))
     env = Env(pool, results)
-    # zone-cache history of the simulation (world.ZONE_HISTORY): replayed across this client's ops
-    zhist = any(asg and asg.get("_zlog") for _, asg in req["ops"])
-    zlast = 0
+    # zone-object identities of the simulation (world.ZONE_HISTORY), replayed with one fresh
+    # object per token: the shared values are built first, as in the simulation
+    zhist = req.get("pool_zlog") is not None
+    zmap = {}
     for i, (op, asg) in enumerate(req["ops"]):
         if op[0] in ("barrier", "nem") or asg is None:
             results.append(Skip if asg is None and op[0] not in ("barrier", "nem") else None)
@@ -102,14 +103,30 @@ def _evaluate(req):
             apply_assignment(world, sc, asg)       # includes the canonical reset
             first = False
             if zhist:
-                for j in range(len(pool.specs)):   # the shared values exist before any clear, as in the simulation
-                    pool[j]
+                import pendulum
+
+                zmap[0] = pendulum.UTC
+                zone_replay(req["pool_zlog"], zmap)
+                try:
+                    for j in range(len(pool.specs)):
+                        try:
+                            pool[j]
+                        except Exception:  # noqa: BLE001 - surfaces again when an op uses the value
+                            pass
+                finally:
+                    zone_replay_end()
         else:
             for reg, val in asg.items():
                 if reg != "disc" and not reg.startswith("_"):
                     world.set_reg(reg, val)
+        if zhist and asg.get("_mock_tok") is not None and isinstance(asg.get("mock_tz"), str):
+            zone_replay([asg["_mock_tok"]], zmap)          # the mock zone object, by its token
+            try:
+                world.set_reg("mock_tz", asg["mock_tz"])
+            finally:
+                zone_replay_end()
         if zhist:
-            zone_replay(asg.get("_zlog") or [], zlast)
+            zone_replay(asg.get("_zlog") or [], zmap)
         try:
             r = execute(op, env)
         except Skip:
@@ -117,7 +134,7 @@ def _evaluate(req):
         except Exception as e:  # noqa: BLE001 - an exception is an observation
             r = e
         finally:
-            zlast = zone_replay_end()
+            zone_replay_end()
         results.append(r)
         try:
             out[i] = ["SKIP"] if r is Skip else observe(r)
@@ -170,9 +187,9 @@ class ColdServer:
         finally:
             os._exit(0)
 
-    def evaluate(self, sc, ops_with_asg):
+    def evaluate(self, sc, ops_with_asg, pool_zlog=None):
         slim = {k: sc[k] for k in ("world", "pool") if k in sc}
-        _send(self.req_w, {"sc": slim, "ops": ops_with_asg})
+        _send(self.req_w, {"sc": slim, "ops": ops_with_asg, "pool_zlog": pool_zlog})
         return _recv(self.res_r)
 
     def unpickle(self, world_cfg, blobs):
@@ -217,7 +234,7 @@ def cold_check(server: ColdServer, run, matched, relaxed_ops):
         ops = [(op, matched.get((name, i))) for i, op in enumerate(actor["ops"])]
         if not any(a is not None for _, a in ops):
             continue
-        res = server.evaluate(sc, ops)
+        res = server.evaluate(sc, ops, getattr(run, "pool_zlog", None))
         stats["cold_clients"] += 1
         if res is None or res[0] != "ok":
             raise RuntimeError("cold-process oracle failed: %r" % (res,))
